@@ -241,19 +241,22 @@ PROPS = {
     "C11": {
         "level": "proof",
         "race": True,
-        "extract": ["Client", "Endpoint"],
+        "extract": ["Client", "Endpoint", "Basic"],
+        "extra_modules": ["QiVerif.Props.C11Faults"],
         "rule": "the real bus client (Call, Subscribe, OnDisconnect) on an endpoint over a harness-implemented net.Stream "
                 "whose every Write blocks until the script lets it succeed or fail and whose reader gets exactly the bytes or "
                 "the error the script feeds; random scripts (6-28 steps: calls, early replies to calls still inside Send, "
                 "replies, cancels, subscriptions, events, error events, disconnect callbacks) with the loss (EOF or error "
-                "after 0-35 bytes of a frame, local Close, failing Write followed by EOF) at a random position; "
-                "systematically every byte offset of the frame in flight x EOF/error; every call's outcome, every "
+                "after 0-35 bytes of a frame, an error reported once together with the last 0-36 bytes read and then silence, "
+                "local Close, failing Write followed by EOF) at a random position; "
+                "systematically every byte offset of the frame in flight x EOF/error/error-once-with-bytes; every call's outcome, every "
                 "subscription's events and closed state and every callback count are compared with the client machine; "
                 "storms: 1-16 concurrent calls over net.Pipe, peer closes / cuts a reply in the middle / local close at a "
                 "random point: all calls return within 10 s, none gets another call's reply, a later call fails, "
                 "subscription closed, callback once",
         "assumptions": [
-            "faults are persistent: once a Read or Write of the stream failed or the stream is closed, every later operation on it fails",
+            "faults are persistent: once a Read or Write of the stream failed or the stream is closed, every later operation on it fails; "
+            "the exception is the read error reported once together with bytes, after which the stream is silent (C11Faults.read_fault_ends_the_message: the message being read fails whatever follows)",
             "a blocked Write returns when the transport reports the loss (the harness lets every Write return)",
             "wall-clock bounds are observed (10 s ceiling per storm, 3 s per scripted step), not proved",
             "a subscriber that stops reading its events channel is outside the statement",
